@@ -23,6 +23,8 @@ type C14Config struct {
 	Stdin    bool     `json:"stdin"`          // feed Files[0] on stdin instead
 	ProgFile bool     `json:"prog_file"`      // give the program with -f
 	Out      string   `json:"out"`            // "", "-", "FILE", "MISSINGDIR"
+	// OutExists: the -o FILE already exists (with longer, unrelated content) before the run
+	OutExists bool `json:"out_exists,omitempty"`
 	Missing  int      `json:"missing"`        // index of a file argument that does not exist (-1: none)
 	Dir      int      `json:"dir"`            // index of a file argument that is a directory (-1: none)
 	UsesFile bool     `json:"uses_file"`      // the program prints $file
@@ -38,6 +40,9 @@ type cliOut struct {
 	outFileErr     bool
 	ok             bool // the run itself could be performed (no watchdog)
 }
+
+// what an already existing -o FILE holds before the run: longer than most outputs
+var c14OldOut = strings.Repeat("{\"old\": \"contents of an earlier run, much longer than the new document\"}\n", 40)
 
 func (c *C14Config) runCLI(progFile bool, stdin bool, out string, prog string, sels []string) cliOut {
 	var args []string
@@ -58,6 +63,9 @@ func (c *C14Config) runCLI(progFile bool, stdin bool, out string, prog string, s
 		args = append(args, "-f", "prog.jqawk", "--")
 	} else {
 		args = append(args, "--", prog)
+	}
+	if out == "FILE" && c.OutExists {
+		files["out.json"] = []byte(c14OldOut)
 	}
 	var in []byte
 	if stdin {
@@ -193,8 +201,8 @@ func c14Check(c *C14Config) string {
 			return fmt.Sprintf("-o - prints %q, which is not the program's output followed by what -o FILE wrote (%q)", clip(dash.stdout), clip(string(main.outFile)))
 		}
 	}
-	if c.Out == "FILE" && wantExit != 0 && !main.outFileErr && lib.Class != "ok" {
-		return "the program failed, yet -o FILE was written"
+	if c.Out == "FILE" && wantExit != 0 && !main.outFileErr && lib.Class != "ok" && !(c.OutExists && string(main.outFile) == c14OldOut) {
+		return fmt.Sprintf("the program failed, yet -o FILE was written (now %q)", clip(string(main.outFile)))
 	}
 	// (2) -f == inline
 	other := c.runCLI(!c.ProgFile, c.Stdin, c.Out, prog, c.Sels)
@@ -273,6 +281,10 @@ func genC14(t *rapid.T) (*C14Config, []string) {
 	c.ProgFile = rapid.Bool().Draw(t, "progfile")
 	c.Stdin = len(c.Files) == 1 && rapid.Bool().Draw(t, "stdin")
 	c.Out = rapid.SampledFrom([]string{"", "", "-", "-", "FILE", "FILE", "MISSINGDIR"}).Draw(t, "out")
+	if c.Out == "FILE" && rapid.Bool().Draw(t, "outexists") {
+		c.OutExists = true
+		labels = append(labels, "-o-file-exists")
+	}
 	if !c.Stdin {
 		switch rapid.IntRange(0, 11).Draw(t, "badinput") {
 		case 0:
@@ -311,7 +323,7 @@ func genC14(t *rapid.T) (*C14Config, []string) {
 
 func TestC14(t *testing.T) {
 	rec := start(t, "C14", "exploration",
-		"configurations: program given inline or with -f FILE x input on stdin / one named file / 2-3 named files / a missing file / a directory among them x 0-2 -r selectors x -o absent / - / a path / a path in a missing directory; programs and inputs from the C02 / C09 / C07 / C11 generators, including runs ending in each error kind, and degenerate program texts (empty, blank, comment only, empty rules, a bare pattern); each configuration is materialised in a private directory. Oracles: (1) stdout of the binary = stdout of lang.EvalProgram (+ GetRootJson text for -o -), exit status 0 iff the library returned nil and -o could be satisfied, otherwise 1 with a diagnostic; (2) -f == inline; (3) stdin == the same bytes in a named file for programs not printing $file; (4) -o FILE bytes == what -o - prints after the program's own output; (5) file and selector order through the $file / $ traces of the C02 programs; (6) -r E P == BEGINFILE { $ = E } P for one selector and programs without BEGINFILE / ENDFILE rules; (7) missing input, directory input, -o with several inputs, unwritable -o path: non-zero status and a diagnostic, never a stack trace. Non-trivial: >= 2 of {-f, >= 2 files, >= 1 selector, -o} or an error path. distinct = distinct configuration.")
+		"configurations: program given inline or with -f FILE x input on stdin / one named file / 2-3 named files / a missing file / a directory among them x 0-2 -r selectors x -o absent / - / a path (new, or already existing with longer content) / a path in a missing directory; programs and inputs from the C02 / C09 / C07 / C11 generators, including runs ending in each error kind, and degenerate program texts (empty, blank, comment only, empty rules, a bare pattern); each configuration is materialised in a private directory. Oracles: (1) stdout of the binary = stdout of lang.EvalProgram (+ GetRootJson text for -o -), exit status 0 iff the library returned nil and -o could be satisfied, otherwise 1 with a diagnostic; (2) -f == inline; (3) stdin == the same bytes in a named file for programs not printing $file; (4) -o FILE bytes == what -o - prints after the program's own output; (5) file and selector order through the $file / $ traces of the C02 programs; (6) -r E P == BEGINFILE { $ = E } P for one selector and programs without BEGINFILE / ENDFILE rules; (7) missing input, directory input, -o with several inputs, unwritable -o path: non-zero status and a diagnostic, never a stack trace. Non-trivial: >= 2 of {-f, >= 2 files, >= 1 selector, -o} or an error path. distinct = distinct configuration.")
 	defer rec.Finish()
 	rec.Assume("the library interpreter (lang.EvalProgram + GetRootJson) is the reference for what the binary must print; its own correctness is the subject of the other properties")
 	rec.Replayer("config", func(raw json.RawMessage) error {
